@@ -901,29 +901,23 @@ def run(chk, args):
 
 
 def exhaustive_small():
-    """thorough tier: every hierarchy of <= 4 fields over 2 names of conditions of depth <= 2, lengths 1..2,
-    bit-field lengths around the exact fill"""
+    """thorough tier: every hierarchy with root fields a, b (1 bit) and at most one field of 0/1/2 bits in
+    each of the scopes a=0, a=1, b=1, (a=0,b=1), (a=1,b=1), in two definition orders, for every bit-field
+    length 2..9 (exhaustive for this family; it contains the minimal fragmentation witness)"""
     cases = []
-    shapes = []
-    # scopes: root, a=0, a=1, b=1, (a=0,b=1)
-    scopes = [[], [[0, 0]], [[0, 1]], [[1, 1]], [[0, 0], [1, 1]]]
-    for widths in itertools.product([1, 2], repeat=3):
-        for used in itertools.product([0, 1], repeat=4):
+    scopes = [[[0, 0]], [[0, 1]], [[1, 1]], [[0, 0], [1, 1]], [[0, 1], [1, 1]]]
+    for widths in itertools.product([0, 1, 2], repeat=5):
+        for order in (list(range(5)), [4, 3, 2, 1, 0]):
             ops = [["add", 0, 0, 1, None, []], ["add", 0, 1, 1, None, []]]
-            inst = {}
             n = 1
-            for si, sc in enumerate(scopes[1:]):
-                if used[si]:
-                    ops.append(["call", 0, sc])
-                    inst[si] = n
+            for si in order:
+                if widths[si]:
+                    ops.append(["call", 0, scopes[si]])
+                    ops.append(["add", n, 2 + si, widths[si], None, [1] if si == 3 else []])
                     n += 1
-            wi = 0
-            for si in range(4):
-                if used[si]:
-                    ops.append(["add", inst[si], 2 + si, widths[wi % 3], None, []])
-                    wi += 1
             ops.append(["assign", 0])
             ops.append(["mask", 0, None, None])
-            for L in range(2, 9):
+            ops.append(["mask", 0, 1, None])
+            for L in range(2, 10):
                 cases.append(dict(L=L, ops=ops, style="exhaustive"))
     return cases
